@@ -347,26 +347,70 @@ impl Res {
   }
 }
 
-/// run `f` in a child thread with a wall-clock cap; the thread is abandoned on timeout (it dies with the process)
+type Job = Box<dyn FnOnce() + Send + 'static>;
+/// the worker thread on which every `Integrator` call of the predicates runs, one after the other — so that
+/// state kept by the implementation between calls (thread-local caches, statics) sees a real call history
+static WORKER: std::sync::Mutex<Option<mpsc::Sender<Job>>> = std::sync::Mutex::new(None);
+static WORKER_SPAWNS: AtomicUsize = AtomicUsize::new(0);
+
+/// run `f` on the worker thread with a wall-clock cap; on timeout the worker is abandoned (it dies with the
+/// process) and the next call gets a fresh one
 pub fn timed<F>(cap: Duration, f: F) -> (Res, f64)
 where
   F: FnOnce() -> C + Send + 'static,
 {
   let (tx, rx) = mpsc::channel();
+  let job: Job = Box::new(move || {
+    let r = guard(f);
+    let _ = tx.send(r);
+  });
+  let mut w = WORKER.lock().unwrap();
+  if w.is_none() {
+    let (jtx, jrx) = mpsc::channel::<Job>();
+    std::thread::Builder::new()
+      .stack_size(32 << 20)
+      .spawn(move || {
+        for j in jrx {
+          j()
+        }
+      })
+      .expect("spawn");
+    WORKER_SPAWNS.fetch_add(1, Ordering::Relaxed);
+    *w = Some(jtx);
+  }
   let t0 = Instant::now();
-  std::thread::Builder::new()
-    .stack_size(32 << 20)
-    .spawn(move || {
-      let r = guard(f);
-      let _ = tx.send(r);
-    })
-    .expect("spawn");
+  w.as_ref().unwrap().send(job).expect("worker alive");
   let r = match rx.recv_timeout(cap) {
     Ok(Some(c)) => Res::Val(c),
     Ok(None) => Res::Panic,
-    Err(_) => Res::Timeout,
+    Err(_) => {
+      *w = None;
+      Res::Timeout
+    }
   };
   (r, t0.elapsed().as_secs_f64())
+}
+
+/// a sample of the calls made so far, re-evaluated at the end of the run (history independence)
+#[derive(Clone)]
+enum Call {
+  D1(I1, f64, f64),
+  D2(I2, f64, f64, f64, f64),
+}
+static HISTORY: std::sync::Mutex<Vec<(Integrator, Call, C)>> = std::sync::Mutex::new(Vec::new());
+static HISTORY_SEEN: AtomicUsize = AtomicUsize::new(0);
+
+fn remember(m: &Integrator, call: Call, r: &Res) {
+  if let Res::Val(v) = r {
+    let k = HISTORY_SEEN.fetch_add(1, Ordering::Relaxed);
+    let mut h = HISTORY.lock().unwrap();
+    // keep every call while few, then every 7th (Gauss–Kronrod: every 3rd of its own, it is slow)
+    let keep = h.len() < 300 || k % 7 == 0;
+    let keep = keep && !(matches!(m, Integrator::GaussKonrod { .. }) && k % 3 != 0);
+    if keep && h.len() < 3000 {
+      h.push((*m, call, *v));
+    }
+  }
 }
 
 fn method_name(m: &Integrator) -> String {
@@ -395,6 +439,7 @@ fn short(m: &Integrator) -> &'static str {
 fn call1(cap: Duration, m: Integrator, f: &I1, a: f64, b: f64) -> (Res, f64, usize) {
   let cnt = Arc::new(AtomicUsize::new(0));
   let c2 = cnt.clone();
+  let f0 = f.clone();
   let f = f.clone();
   let (r, t) = timed(cap, move || {
     m.integrate(
@@ -406,6 +451,7 @@ fn call1(cap: Duration, m: Integrator, f: &I1, a: f64, b: f64) -> (Res, f64, usi
       b,
     )
   });
+  remember(&m, Call::D1(f0, a, b), &r);
   (r, t, cnt.load(Ordering::Relaxed))
 }
 
@@ -423,6 +469,7 @@ static OUTER_EVALS: AtomicUsize = AtomicUsize::new(0);
 fn call2(cap: Duration, m: Integrator, f: &I2, ax: f64, bx: f64, ay: f64, by: f64) -> (Res, f64, usize) {
   let cnt = Arc::new(AtomicUsize::new(0));
   let c2 = cnt.clone();
+  let f0 = f.clone();
   let f = f.clone();
   let last = std::sync::atomic::AtomicU64::new(f64::NAN.to_bits());
   let outer = Arc::new(AtomicUsize::new(0));
@@ -443,6 +490,7 @@ fn call2(cap: Duration, m: Integrator, f: &I2, ax: f64, bx: f64, ay: f64, by: f6
     )
   });
   OUTER_EVALS.store(outer.load(Ordering::Relaxed), Ordering::Relaxed);
+  remember(&m, Call::D2(f0, ax, bx, ay, by), &r);
   (r, t, cnt.load(Ordering::Relaxed))
 }
 
@@ -521,12 +569,16 @@ pub fn run(ctx: &mut Ctx) {
     k_simpson2d(ctx);
     k_adaptive(ctx);
     k_gl(ctx);
+    s_gl_ascending(ctx, cap);
     s_methods_1d(ctx, cap);
     s_methods_2d(ctx, cap);
+    s_gl_ascending(ctx, cap);
+    s_history(ctx, cap);
   }
   if which == "all" || which == "gk2d" {
     s_gk2d(ctx, cap);
   }
+  ctx.dist.insert("worker/threads".into(), WORKER_SPAWNS.load(Ordering::Relaxed) as u64);
 }
 
 fn outc(r: Option<C>, s: f64) -> String {
@@ -1134,4 +1186,96 @@ fn s_gk2d(ctx: &mut Ctx, cap: Duration) {
       Res::Timeout => {}
     }
   }
+}
+
+/// Gauss–Legendre degree of exactness in ASCENDING order of the node count on one thread: n-point rule,
+/// complex polynomials of degree 0, 1, n, 2n−2, 2n−1, in 1-D and (separable and bi-polynomial) 2-D
+fn s_gl_ascending(ctx: &mut Ctx, cap: Duration) {
+  for &n in &[2usize, 3, 4, 7, 12, 20, 33, 64] {
+    let m = Integrator::GaussLegendre { degree: n };
+    for &deg in &[0usize, 1, n, 2 * n - 2, 2 * n - 1] {
+      let mk = |r: &mut Rng| {
+        let mut cs: Vec<C> = (0..=deg).map(|_| gen_c(r)).collect();
+        cs[deg] = C::new(1., -0.5);
+        I1::Poly(cs)
+      };
+      let f = mk(&mut ctx.rng);
+      let (a, b) = match ctx.rng.below(3) {
+        0 => (-1., 1.),
+        1 => (0., ctx.rng.range(0.5, 1.5)),
+        _ => (ctx.rng.range(-1.2, -0.4), ctx.rng.range(0.4, 1.2)),
+      };
+      let sc = f.scale(a, b);
+      let (r, _, evals) = call1(cap, m, &f, a, b);
+      let ok = match r {
+        Res::Val(v) => (v - f.exact(a, b)).norm() <= 1e-12 * sc,
+        _ => false,
+      };
+      ctx.s(
+        "C12.exact",
+        ok,
+        &fail_sig(&m, "inexact", &r),
+        &format!("{} a={:e} b={:e} polydeg={} evals={} relerr={:e} f={}", method_name(&m), a, b, deg, evals, r.val().map(|v| (v - f.exact(a, b)).norm() / sc).unwrap_or(f64::NAN), f.describe()),
+      );
+      if deg <= 7 || deg == 2 * n - 1 {
+        let g = mk(&mut ctx.rng);
+        let (c, d) = (ctx.rng.range(-1., -0.2), ctx.rng.range(0.2, 1.));
+        let f2 = I2::Sep(f.clone(), g.clone());
+        let sc2 = f2.scale(a, b, c, d);
+        let (r2, _, _) = call2(cap, m, &f2, a, b, c, d);
+        let ok2 = match r2 {
+          Res::Val(v) => (v - f2.exact(a, b, c, d)).norm() <= 1e-12 * sc2,
+          _ => false,
+        };
+        ctx.s(
+          "C12.exact",
+          ok2,
+          &format!("{}2d/inexact", short(&m)),
+          &format!("{} ax={:e} bx={:e} ay={:e} by={:e} polydeg={} relerr={:e}", method_name(&m), a, b, c, d, deg, r2.val().map(|v| (v - f2.exact(a, b, c, d)).norm() / sc2).unwrap_or(f64::NAN)),
+        );
+      }
+      ctx.count("gl/ascending");
+    }
+  }
+}
+
+/// history independence: a sample of the earlier calls is repeated at the end of the run, after every other
+/// method/parameter has been used on the same thread; the result must be the same — bit for bit for the
+/// sequential methods, to 1e-12 of the scale where the implementation sums in parallel (rayon: Simpson with
+/// ≥ 128 sub-intervals and `simpson2d`)
+fn s_history(ctx: &mut Ctx, cap: Duration) {
+  let hist: Vec<(Integrator, Call, C)> = HISTORY.lock().unwrap().clone();
+  for (m, call, v0) in hist {
+    let (r, sc, inp, parallel) = match &call {
+      Call::D1(f, a, b) => {
+        let par = matches!(m, Integrator::Simpson { divs } if divs >= 128);
+        (call1(cap, m, f, *a, *b).0, f.scale(*a, *b), format!("{} a={:e} b={:e} f={}", method_name(&m), a, b, f.describe()), par)
+      }
+      Call::D2(f, ax, bx, ay, by) => (
+        call2(cap, m, f, *ax, *bx, *ay, *by).0,
+        f.scale(*ax, *bx, *ay, *by),
+        format!("{} ax={:e} bx={:e} ay={:e} by={:e} f={}", method_name(&m), ax, bx, ay, by, f.describe()),
+        matches!(m, Integrator::Simpson { .. }),
+      ),
+    };
+    let ok = match r {
+      Res::Val(v) => {
+        if parallel {
+          (v - v0).norm() <= 1e-12 * sc
+        } else {
+          (v.re.to_bits() == v0.re.to_bits() || v.re == v0.re) && (v.im.to_bits() == v0.im.to_bits() || v.im == v0.im)
+        }
+      }
+      _ => false,
+    };
+    ctx.count(&format!("history/{}", short(&m)));
+    ctx.s(
+      "C12.history",
+      ok,
+      &format!("history/{}/changed", short(&m)),
+      &format!("{} first=({:e},{:e}) again={}", inp, v0.re, v0.im, r.val().map(|w| format!("({:e},{:e})", w.re, w.im)).unwrap_or(r.tag().into())),
+    );
+  }
+  // the re-evaluation must not feed the history again
+  HISTORY.lock().unwrap().clear();
 }
